@@ -67,14 +67,18 @@ def childOps (E : Env) : Ops := classOps E .SolverCompositeChild
 
 /-! ### iteration order of Python sets -/
 
-/-- the elements of `l` in the order the key list `p` names them (`mt x k`: key `k` names `x`); elements no key names follow in
-the order of `l`, keys naming nothing are ignored: for EVERY `p` the result has exactly the elements of `l` -/
-def reorderBy [BEq α] (mt : α → List Nat → Bool) (p : List (List Nat)) (l : List α) : List α :=
-  let front := p.foldl (fun acc k =>
+/-- the elements of `l` that the keys of `p` name, one after the other (`mt x k`: key `k` names `x`), each once; keys naming
+nothing (or nothing new) are ignored -/
+def reorderFront [BEq α] (mt : α → List Nat → Bool) (l : List α) (p : List (List Nat)) (acc : List α) : List α :=
+  p.foldl (fun acc k =>
     match l.find? (fun x => mt x k && !acc.contains x) with
     | some x => acc ++ [x]
-    | none => acc) []
-  front ++ l.filter fun x => !front.contains x
+    | none => acc) acc
+
+/-- the elements of `l` in the order the key list `p` names them; elements no key names follow in the order of `l`: for EVERY
+`p` the result has exactly the elements of `l` -/
+def reorderBy [BEq α] (mt : α → List Nat → Bool) (p : List (List Nat)) (l : List α) : List α :=
+  reorderFront mt l p [] ++ l.filter fun x => !(reorderFront mt l p []).contains x
 
 /-- the order in which CPython iterates the set `l` (shown to the oracle as the keys `keys`): one event -/
 def orderOracle [BEq α] (E : Env) (mt : α → List Nat → Bool) (keys : List (List Nat)) (l : List α) : CM (List α) := fun s =>
